@@ -432,6 +432,108 @@ pub fn run(data: &[u8], ctx: &mut Ctx) -> Outcome {
         }
         _ => {}
     }
+    // --- drawn last (recorded choice sequences keep their meaning): the same envelope as the SUBJECT of
+    // an outer node (node-as-subject, the shape uncompress_subject / decrypt_subject / the decoder
+    // produce), signed by two keys with or without metadata; then one element somewhere inside one
+    // signer's 'signed' assertion is obscured and the other signer must verify as before.
+    if src.chance(56) {
+        let ns = e.compress().and_then(|c| c.add_assertion("outer", src.below(100) as u64).uncompress_subject());
+        if let Ok(ns) = ns {
+            let want_subject = bridge::d32(&e.digest());
+            check!(ctx, bridge::d32(&ns.subject().digest()) == want_subject, "node-subject", "C09/node-subject/build", "building the node-as-subject envelope changed the inner digest");
+            ctx.class(if e.is_node() { "node-subject:node" } else { "node-subject:other" });
+            let a_i = signers[0];
+            let b_i = if signers.len() > 1 { signers[1] } else { (signers[0] + 1) % pool.sig.len() };
+            let mut s2 = ns.clone();
+            let mut own: Vec<D32> = Vec::new();
+            let mut mds: Vec<bool> = Vec::new();
+            for &i in &[a_i, b_i] {
+                let k = &pool.sig[i];
+                let md = if src.chance(150) { Some(metadata_for(i, &mut src).0) } else { None };
+                mds.push(md.is_some());
+                let before: BTreeSet<D32> = s2.assertions().iter().map(|a| bridge::d32(&a.digest())).collect();
+                s2 = nopanic!(ctx, s2.add_signature_opt(&k.private, k.options(), md), "node-subject", "C09/node-subject/sign");
+                let new: Vec<D32> = s2.assertions().iter().map(|a| bridge::d32(&a.digest())).filter(|d| !before.contains(d)).collect();
+                check!(ctx, new.len() == 1, "node-subject", "C09/node-subject/sign", "adding a signature added {} assertions", new.len());
+                own.push(new[0]);
+            }
+            if nopanic!(ctx, unreadable_fresh_signature(&s2), "node-subject", "C09/node-subject/sign") {
+                ctx.excluded_known += 1;
+                check!(ctx, false, "node-subject", SSH_ECDSA_KEY, "a signature the library just added cannot be decoded again (SSH-ECDSA signature encoding, dependency defect)");
+            }
+            for (n, &i) in [a_i, b_i].iter().enumerate() {
+                let k = &pool.sig[i];
+                let r = nopanic!(ctx, s2.has_signature_from(&k.public), "node-subject", "C09/node-subject/verify");
+                check!(ctx, matches!(r, Ok(true)), "node-subject", "C09/node-subject/verify", "signature by {}#{} (metadata: {}) does not verify on an envelope whose subject is a node: {:?}", k.scheme, i, mds[n], r.as_ref().map_err(|x| x.to_string()));
+                let r = nopanic!(ctx, s2.verify_signature_from_returning_metadata(&k.public), "node-subject", "C09/node-subject/verify");
+                let r = tryp!(ctx, r.map_err(|x| format!("verify_signature_from_returning_metadata on a node-subject envelope failed for {}#{}: {}", k.scheme, i, x)), "node-subject", "C09/node-subject/verify");
+                let rm = tryp!(ctx, bridge::read_out(&r), "readout", "C09/readout");
+                tryp!(ctx, check_metadata(&s2, &r, &rm, k, &want_subject), "node-subject", "C09/node-subject/uncovered");
+                check!(ctx, rm.assertions().is_empty() != mds[n], "node-subject", "C09/node-subject/verify", "metadata presence differs from what was signed");
+            }
+            let outsider_i = (0..pool.sig.len()).find(|i| *i != a_i && *i != b_i).unwrap();
+            let r = nopanic!(ctx, s2.has_signature_from(&pool.sig[outsider_i].public), "node-subject", "C09/node-subject/verify");
+            check!(ctx, !matches!(r, Ok(true)), "node-subject", "C09/node-subject/verify", "a key that did not sign verifies on the node-subject envelope");
+            // obscure one element strictly inside the second signer's 'signed' assertion
+            let s2m = tryp!(ctx, bridge::read_out(&s2), "readout", "C09/readout");
+            if let Some(am) = s2m.assertions().iter().find(|a| a.digest() == own[1]) {
+                let inner = am.elements();
+                // the predicate 'signed' is shared by every signature assertion: leave it
+                let cands: Vec<&&M> = inner.iter().skip(1).filter(|x| x.digest() != M::Known(3).digest()).collect();
+                if !cands.is_empty() {
+                    let v = cands[src.below(cands.len())];
+                    let action = match src.below(3) {
+                        0 => Obs::Elide,
+                        1 => Obs::Encrypt,
+                        _ => Obs::Compress,
+                    };
+                    let mut t = BTreeSet::new();
+                    t.insert(v.digest());
+                    let damaged = nopanic!(ctx, s2.elide_removing_set_with_action(&to_hashset(&t), &action_of(action)), "node-subject", "C09/inner-victim");
+                    ctx.class(&format!("inner-victim:{:?}:{}", v.kind(), if mds[1] { "with-metadata" } else { "plain" }));
+                    let k = &pool.sig[a_i];
+                    let r = nopanic!(ctx, damaged.has_signature_from(&k.public), "node-subject", "C09/inner-victim");
+                    check!(ctx, matches!(r, Ok(true)), "node-subject", "C09/inner-victim", "after {:?} of one element ({}) inside ANOTHER signer's 'signed' assertion, the intact signature by {}#{} no longer verifies: {:?}", action, v.show(), k.scheme, a_i, r.as_ref().map_err(|x| x.to_string()));
+                    let r = nopanic!(ctx, damaged.has_signature_from(&pool.sig[outsider_i].public), "node-subject", "C09/inner-victim");
+                    check!(ctx, !matches!(r, Ok(true)), "node-subject", "C09/inner-victim", "a key that did not sign verifies after an element of a signature was obscured");
+                }
+            }
+            ctx.nontrivial = true;
+        }
+    }
+    // --- a 'signed' assertion that carries assertions of its own: the note of make_signed_assertion(),
+    // or a salt (add_assertion_envelope_salted). The signature in it is as valid as a bare one.
+    if src.chance(48) {
+        let k = &pool.sig[signers[0]];
+        let sig = sign_digest(k, &subject_digest);
+        let route = src.below(3);
+        let decorated = match route {
+            0 => e.make_signed_assertion(&sig, Some("a note on the signature")),
+            1 => e.make_signed_assertion(&sig, None).add_salt(),
+            _ => e.make_signed_assertion(&sig, None),
+        };
+        let with = match route {
+            2 => nopanic!(ctx, e.add_assertion_envelope_salted(decorated, true).map_err(|x| x.to_string()), "decorated", "C09/decorated-signed-assertion"),
+            _ => nopanic!(ctx, e.add_assertion_envelope(decorated).map_err(|x| x.to_string()), "decorated", "C09/decorated-signed-assertion"),
+        };
+        let with = tryp!(ctx, with, "decorated", "C09/decorated-signed-assertion");
+        ctx.class(["decorated-signed:note", "decorated-signed:salt", "decorated-signed:salted-add"][route]);
+        if nopanic!(ctx, unreadable_fresh_signature(&with), "decorated", "C09/decorated-signed-assertion") {
+            ctx.excluded_known += 1;
+            check!(ctx, false, "decorated", SSH_ECDSA_KEY, "a signature the library just added cannot be decoded again (SSH-ECDSA signature encoding, dependency defect)");
+        }
+        let r = nopanic!(ctx, with.has_signature_from(&k.public), "decorated", "C09/decorated-signed-assertion");
+        check!(ctx, matches!(r, Ok(true)), "decorated", "C09/decorated-signed-assertion", "a valid signature by {}#{} inside a 'signed' assertion that carries its own assertions ({}) is not recognised: {:?}", k.scheme, signers[0], ["note", "salt", "salted add"][route], r.as_ref().map_err(|x| x.to_string()));
+        let v = nopanic!(ctx, with.verify_signature_from(&k.public), "decorated", "C09/decorated-signed-assertion");
+        check!(ctx, v.is_ok(), "decorated", "C09/decorated-signed-assertion", "verify_signature_from fails for a decorated 'signed' assertion");
+        let vs: Vec<&dyn Verifier> = vec![&k.public];
+        let t = nopanic!(ctx, with.has_signatures_from_threshold(&vs, Some(1)), "decorated", "C09/decorated-signed-assertion");
+        check!(ctx, matches!(t, Ok(true)), "decorated", "C09/decorated-signed-assertion", "threshold verification does not count a decorated 'signed' assertion");
+        let outsider_i = (0..pool.sig.len()).find(|i| *i != signers[0]).unwrap();
+        let r = nopanic!(ctx, with.has_signature_from(&pool.sig[outsider_i].public), "decorated", "C09/decorated-signed-assertion");
+        check!(ctx, !matches!(r, Ok(true)), "decorated", "C09/decorated-signed-assertion", "a key that did not sign verifies");
+        ctx.nontrivial = true;
+    }
     if signers.len() >= 2 || changed {
         ctx.nontrivial = true;
     }
